@@ -1062,6 +1062,26 @@ func hpRun(rt *rapid.T, prop string) {
 				break
 			}
 		}
+		if vs.Pct(c, 20) {
+			// Another user of the package in the same process: the exported Huffman
+			// helpers (internal/http3's QPACK calls them) share the Decoder's buffer
+			// pool. What they leave behind must not show up in decoded fields.
+			txt := vs.Pick(c, "stale-text-from-another-caller", "x", strings.Repeat("q", 300))
+			enc := AppendHuffmanString(nil, txt)
+			for k := vs.Range(c, 1, 3); k > 0; k-- {
+				if got, err := HuffmanDecodeToString(enc); err != nil || got != txt {
+					viol = vs.Violf(feedPropOf(prop), "huffman_helper", "huffman_helper_wrong", "HuffmanDecodeToString(AppendHuffmanString(%q)) = %q, %v", txt, got, err)
+					break
+				}
+				var sink bytes.Buffer
+				HuffmanDecode(&sink, enc)
+			}
+			vs.G.Inc("probe.huffman_helper_interleaved")
+			tr.Ev("huffman helpers called by another user (%d bytes of text)", len(txt))
+			if viol != nil {
+				break
+			}
+		}
 		r0 := B.resumes
 		// a decoder panic on an undamaged block is a round-trip failure (C01);
 		// on the split side of C03, where the one-Write side survived, it is C03's.
@@ -1361,3 +1381,7 @@ func TestVerif_C01(t *testing.T) { hpCheck(t, "C01") }
 func TestVerif_C02(t *testing.T) { hpCheck(t, "C02") }
 func TestVerif_C03(t *testing.T) { hpCheck(t, "C03") }
 func TestVerif_C05(t *testing.T) { hpCheck(t, "C05") }
+
+func feedPropOf(prop string) string {
+	return map[string]string{"C01": "C01", "C05": "C01", "C02": "C02", "C03": "C03"}[prop]
+}
